@@ -841,3 +841,28 @@ def run(idx, rep, tier):
     r8(k)
     r9(k)
     r10(k)
+    rep.rule('C13.R11', 'SFTPServer.readlink under a chroot: the link text '
+             'is resolved relative to the directory of the link (the '
+             'argument of realpath() is built with join / dirname of the '
+             'mapped link path), not handed to realpath() as read - a '
+             'relative target would be resolved against the working '
+             'directory of the server process, lstat-ing and reading links '
+             'outside the root')
+    _fr = k.func('sftp.SFTPServer.readlink')
+    _gr = k.cfg(_fr)
+    _rr = k.rd(_fr)
+    from ..flow import expr_sources as _es
+    _rp = [(n, c) for n, c in k.calls_named(_fr, 'realpath')]
+    rep.floor('C13.R11', 'realpath calls in readlink', len(_rp), 1)
+    for _n, _c in _rp:
+        _lv, _fv = _es(_gr, _rr, _n.id, _c.args[0])
+        _ex = [_c.args[0]] + list(_lv)
+        _ok = any(is_call(x, 'join') for e in _ex for x in ast.walk(e)) and \
+            any(is_call(x, 'dirname') for e in _ex for x in ast.walk(e))
+        rep.check(_ok, 'C13.R11', key(_fr, 'link text resolved from the link'),
+                  'realpath(join(dirname(<link>), <text>))',
+                  'realpath() of the raw link text: for /a/l -> f the '
+                  'server resolves <cwd>/f; if that is a symlink into the '
+                  'root, readlink(/a/l) answers /other instead of /a/f, and '
+                  'the lookup walks links outside the root',
+                  k.loc(_fr, _n))
